@@ -28,7 +28,11 @@ Csg == LET a == <<"sphere", <<0, 0, 0>>, 2>>  b == <<"box", <<-1, 0, -2>>, <<2, 
            c == <<"plane", "Z", 0>>  d == <<"sphere", <<1, 1, 1>>, 2>>  e == <<"move", <<"box", <<0, 0, 0>>, <<1, 1, 1>>>>, <<1, 0, 0>>>> IN
        { <<"union", <<a, b>>>>, <<"union", <<a, b, c>>>>, <<"union", <<a, b, c, d, e>>>>, <<"union", <<e, d, c, b, a, e, d>>>>,
          <<"inter", <<a, b>>>>, <<"inter", <<a, b, c>>>>, <<"inter", <<a, b, c, d, e>>>>, <<"inter", <<d, c, b, a, e, c>>>>, <<"inter", <<a, c, d, b, e, a, d>>>>,
-         <<"diff", a, b>>, <<"diff", b, d>>, <<"inv", a>>, <<"inv", <<"union", <<a, c>>>>>>, <<"union", <<a>>>>, <<"inter", <<d>>>> }
+         <<"diff", a, b>>, <<"diff", b, d>>, <<"inv", a>>, <<"inv", <<"union", <<a, c>>>>>>, <<"union", <<a>>>>, <<"inter", <<d>>>>,
+         \* no input at all: the union of nothing is empty, the intersection of nothing is everything, also as inputs
+         <<"union", <<>>>>, <<"inter", <<>>>>, <<"inv", <<"union", <<>>>>>>,
+         <<"union", << <<"inter", <<>>>>, a>>>>, <<"union", <<a, <<"union", <<>>>>>>>>, <<"union", << <<"inter", <<>>>> >>>>,
+         <<"inter", << <<"union", <<>>>>, b>>>>, <<"inter", <<b, <<"inter", <<>>>>>>>>, <<"diff", a, <<"inter", <<>>>>>>, <<"diff", <<"inter", <<>>>>, b>> }
 AllShapes == Prims \cup Level1 \cup Level2 \cup Csg
 
 Lattice == {<<x, y, z>> : x \in -1..2, y \in -1..1, z \in -2..1}
